@@ -242,11 +242,16 @@ func runLock(e Entry, rng *rand.Rand, stress int, real bool) {
 				}
 				p.guarded(m.Name, func() { p.action(act, m, n) })
 				isync.Yield = nil
+				if held := isync.Held(a); len(held) > 0 {
+					p.viol(m.Name, fmt.Sprintf("locks still held after %s returned: %v", act, held))
+				}
 				if bdone != nil {
+					// the injected call can only be stuck on a lock that was leaked (reported above); a wall-clock
+					// limit decides nothing here, it only keeps the driver going
 					select {
 					case <-bdone:
-					case <-time.After(3 * time.Second):
-						p.viol(m.Name, "the injected call of "+m.Name+" never returned")
+					case <-time.After(20 * time.Second):
+						count("injected_calls_abandoned", 1)
 					}
 				}
 				for _, r := range isync.Reports() {
